@@ -114,6 +114,33 @@ def run_case(ctx, h, tmp):
     try:
         first = rset2.get_resource(URI(paths[start]))
         objs_first = preorder(first.contents)
+        # two references to the same target, one followed and one not yet: they compare equal, both ways
+        groups = {}
+        for i, o in enumerate(objs_first):
+            for f in _refs(o):
+                if f.containment:
+                    continue
+                v = o.eGet(f)
+                vals = list(v) if f.many else ([v] if v is not None else [])
+                for t in vals:
+                    # (the same path read from the same resource names the same object)
+                    if hasattr(t, '_proxy_path') and not t.resolved:
+                        tgt = str(t._proxy_path)
+                        groups.setdefault(tgt, [])
+                        if not any(t is x for x in groups[tgt]):
+                            groups[tgt].append(t)
+        for tgt, ps in sorted(groups.items()):
+            if len(ps) < 2:
+                continue
+            p_, q_ = ps[0], ps[1]
+            _ = p_.eClass                      # followed
+            ctx.count('proxy-pairs')
+            ctx.evaluations += 1
+            res_ = (p_ == q_, not (p_ != q_), q_ == p_, not (q_ != p_))
+            if not all(res_):
+                problems.append(('proxy-equality', f'two references to the same object of another resource, the first followed, the second '
+                                 f'not yet: (a == b, not a != b, b == a, not b != a) = {res_}', 'none'))
+            break
         # follow every reference of the first resource (this loads the others on demand) ...
         followed = {}
         for i, o in enumerate(objs_first):
